@@ -5,12 +5,21 @@
 #include <functional>
 #include <sqlite3.h>
 
+// Walk of the failure index: every k up to a dense prefix (8 in the quick tier, 200 in the thorough tier), then strides that grow
+// with k, so that the number of attempts per call stays bounded (a call with thousands of allocations is re-executed once per
+// attempt); which sites beyond the prefix are hit varies with the seed.
+static inline long next_k(long k, bool quick, Rng &skip) {
+    if (quick) return k <= 8 ? k + 1 : k + 1 + (long) skip.below((uint64_t) std::max<long>(5, k / 12));
+    return k <= 200 ? k + 1 : k + 1 + (long) skip.below((uint64_t) std::max<long>(2, k / 60));
+}
 struct FaultEnum {
     bool enabled = false; bool quick = true;
     std::string prop = "C17";
     uint64_t seed = 0; long steps = 0;
     bool allow_cb_code = false; int cb_code = 0;            // cif_parse may also return what the error callback returned
     TxMonitor txm; sqlite3 *watch_db = NULL;                 // connection of the CIF the workload operates on (no iterator open between calls)
+    bool idempotent = false;                                  // f may be repeated after it succeeded (cif_parse into a fresh CIF, cif_walk)
+    std::function<void(const char *fn, long k, int rc)> after_absorbed;   // validation of an attempt that completed although an allocation failed
     std::function<void(const char *fn, long k)> after_failed;   // invariant check after a failed attempt (state valid / unchanged)
     // f must be re-invocable; returns the return code of the attempt during which no allocation failed
     template <class F> int call(const char *fn, F f, bool null_on_failure_fn = false) {
@@ -25,6 +34,15 @@ struct FaultEnum {
             if (!fired) return rc;
             // absorbed failures (SQLite's own recovery, the library's retry of a buffer growth with a smaller request): the
             // call completed normally and is judged by the model like the unfaulted execution
+            if (rc != CIF_MEMORY_ERROR && rc != CIF_ERROR && !(allow_cb_code && cb_code != 0 && rc == cb_code) && !null_on_failure_fn && idempotent) {
+                // the call can simply be made again (fresh target / read-only): validate this attempt like the unfaulted one and go on
+                // with the next allocation site, so that an early absorbed failure (e.g. inside a user callback) does not end the walk
+                g_stats.inc(sq ? "fault.alloc_sqlite.absorbed" : "fault.alloc_libcif.absorbed"); ev("%s: %s allocation failure #%ld absorbed -> %s (continuing)", fn, sq ? "storage-engine" : "library", k, rc_name(rc));
+                txm.check(prop, fn, rc, watch_db, "the CIF", sq, k);
+                if (after_absorbed) { try { after_absorbed(fn, k, rc); } catch (Violation &v) { v.detail += strprintf(" [%s allocation #%ld failed at %s]", sq ? "storage-engine" : "library", k, A.describe_fire().c_str()); throw; } }
+                ++steps; k = next_k(k, quick, skip);
+                continue;
+            }
             if (rc != CIF_MEMORY_ERROR && rc != CIF_ERROR && !(allow_cb_code && cb_code != 0 && rc == cb_code) && !null_on_failure_fn) { g_stats.inc(sq ? "fault.alloc_sqlite.absorbed" : "fault.alloc_libcif.absorbed"); ev("%s: %s allocation failure #%ld absorbed -> %s", fn, sq ? "storage-engine" : "library", k, rc_name(rc)); txm.check(prop, fn, rc, watch_db, "the CIF", sq, k); return rc; }
             ++steps;
             g_stats.inc(sq ? "fault.alloc_sqlite.fired" : "fault.alloc_libcif.fired");
@@ -35,7 +53,7 @@ struct FaultEnum {
             if (!ok) throw Violation(prop + ".code", strprintf("%s:%s:%s", fn, sq ? "sqlite" : "libcif", rc_name(rc)), strprintf("%s returned %s when %s allocation #%ld failed (CIF_MEMORY_ERROR or CIF_ERROR required)", fn, rc_name(rc), sq ? "storage-engine" : "library", k), -1);
             txm.check(prop, fn, rc, watch_db, "the CIF", sq, k);
             if (after_failed) { try { after_failed(fn, k); } catch (Violation &v) { v.detail += strprintf(" [%s allocation #%ld failed at %s]", sq ? "storage-engine" : "library", k, A.describe_fire().c_str()); throw; } }
-            if (quick && k > 8) k += 1 + (long) skip.below(5); else ++k;
+            k = next_k(k, quick, skip);
         }
         throw Violation(prop + ".enumeration", fn, "more than 200000 allocation sites in one call", -1);
     }
